@@ -52,7 +52,7 @@ fn any_sub(next: u64) -> Subscription {
 #[cfg(kani)]
 fn promote_unreachable(_t: &mut ChangedAttrs, _new: ChangedAttr) {
     // proved unreachable while the table is not full
-    kani::assert(false, "ROLE:promotion-unreachable-below-capacity");
+    kani::assert(false, "ROLE:NEVER:promotion-unreachable-below-capacity");
 }
 
 /// record(): the change gets a fresh, larger id and is covered from then on; whatever was
@@ -259,6 +259,39 @@ fn c13_t_promotion_full_table_3sym() {
     vcover!(t.entries.len() < MAX_CHANGED_ATTRS);
 }
 
+/// The last-ditch overflow path on a CONCRETE full table in which nothing can be grouped (16
+/// entries on 16 different endpoints): the 17th, uncovered change collapses the table into a
+/// global wildcard - which must carry the NEW change's id, so that the change is pending for a
+/// subscriber that had seen everything before it, and everything older stays pending too.
+#[cfg_attr(kani, kani::proof)]
+#[cfg_attr(kani, kani::unwind(18))]
+#[cfg_attr(not(kani), test)]
+fn c13_q_promotion_global_fallback() {
+    let mut t = ChangedAttrs::new();
+    let mut next: u64 = 1;
+    let mut i: u16 = 0;
+    while i < 16 {
+        let _ = t.entries.push(ChangedAttr { endpoint: 100 + i, cluster: 7, attr: 1, change_id: next });
+        next += 1;
+        i += 1;
+    }
+    t.next_change_id = next;
+    let (e, c, a) = (any_u16(), any_u32(), any_u32());
+    assume(e < 100 && c != WILDCARD_CLUSTER && a != WILDCARD_ATTR);
+    let id = t.record(e, c, a);
+    vassert!(id == 17 && t.watermark() == 17, "ROLE:change-gets-the-next-id");
+    vassert!(t.entries.len() <= MAX_CHANGED_ATTRS, "ROLE:table-never-exceeds-capacity");
+    // pending for the subscriber that was completely up to date (watermark 16) ...
+    vassert!(t.contains_since(e, c, a, 16) && t.any_since(16), "ROLE:overflowing-change-is-pending-for-an-up-to-date-subscriber");
+    // ... and every older change is still pending for every older watermark
+    let k = any_u16();
+    assume(k < 16);
+    let since = any_u64();
+    assume(since <= k as u64);
+    vassert!(t.contains_since(100 + k, 7, 1, since), "ROLE:pending-change-stays-pending-across-record(coalescing keeps the max id)");
+    vcover!(t.entries.len() == 1);
+}
+
 /// Report timing (64-bit multiply by TICK_HZ: SMT-exported). `now` and all stamps arbitrary.
 #[cfg_attr(kani, kani::proof)]
 #[cfg_attr(kani, kani::unwind(4))]
@@ -273,6 +306,7 @@ fn c13_q_report_timing() {
     s.reported_at = if primed { Instant::from_ticks(rep) } else { Instant::MAX };
     s.retry_at = if any_bool() { Instant::MIN } else { Instant::from_ticks(any_u64()) };
     let now_t = any_u64();
+    assume(now_t < (1u64 << 62));
     let now = Instant::from_ticks(now_t);
     let min_t = s.min_int_secs as u64 * hz;
     let max_t = s.max_int_secs as u64 * hz;
